@@ -27,17 +27,22 @@ def run(item):
         rc, o = sh(f'{V}/bin/defracheck -repo {src} -property {prop} -verif {vd}')
         viol = [l for l in o.splitlines() if l.startswith('VIOLATION')]
         if rc == 1 and viol and 'load-failed' not in o:
-            return prop, h, f'detected ({len(viol)} violation lines)'
+            rules = sorted(set(re.findall(r'\[([A-Z][A-Z0-9-]+)\]', o)))
+            named = [r for r in rules if r in entry_text.get(h, '')]
+            note = '' if named else '  (NOTE: none of the reporting rules is named in the fixed entry)'
+            return prop, h, 'detected by ' + ','.join(rules) + note
         if 'load-failed' in o:
             return prop, h, 'skipped: the reversed tree no longer type-checks (later fixes build on this one)'
         return prop, h, 'NOT DETECTED'
     finally:
         shutil.rmtree(scratch, ignore_errors=True)
 items = []
+entry_text = {}
 for line in k['fixed']:
     m = re.match(r'fixed: property=(C\d+) ([0-9a-f]{7,})', line)
     if m:
         items.append((m.group(1), m.group(2)))
+        entry_text[m.group(2)] = line
 ok = bad = skipped = 0
 with concurrent.futures.ThreadPoolExecutor(max_workers=4) as ex:
     for prop, h, res in ex.map(run, items):
